@@ -70,6 +70,8 @@ SpecLegal == Init /\ [][NextLegal]_vars
 
 \* the rules do not depend on the history: hide `order`, d0, clocks, returns and the last action
 RulesView == <<s.nodes.demands, s.vehicles.capacities, s.vehicles.positions, last.type, last.pl, s.step_count>>
+\* the history matters (order, clocks, returns) but not which action produced it
+RoutesView == <<s, d0, tm, last.type, last.pl, retD, retS>>
 Live == ~last.pl /\ StepsDone(s) <= Horizon      \* states of the episode proper (up to and including its LAST)
 
 (* C03 *) Protocol == (last.type = FIRST <=> s.step_count = 1) /\ last.type \in {FIRST, MID, LAST}
